@@ -96,7 +96,7 @@ Paths ==
       \cup {<<AB>>, <<AB, B>>, <<A, AB>>, <<A, One>>, <<A, AB, B>>, <<AB, E>>, <<B, A>>, <<A, B, A, B>>}
       \cup (IF Rich THEN {<<A, B, B, E>>, <<A, One, B>>, <<A, A, B, E>>, <<B, A, E>>, <<A, B, AB>>} ELSE {})
 PathSeq == SeqOfSet(Paths)
-Methods == {"GET", "POST"}
+Methods == {"GET", "POST", "PUT"}      \* PUT: served only by "*" resources
 OtherHost == "other.example"
 HostsFor(T) == {OtherHost} \cup ({T[i].domain : i \in DOMAIN T} \ {""})
 
@@ -106,6 +106,7 @@ ValidIds == {ids \in UNION {[1..n -> 1..NEnt] : n \in 1..MaxEntries} : ValidTabl
 ASSUME EmitGrammar =>
     /\ PrintT(<<"VP", "G", "entries", EntrySeq>>)
     /\ PrintT(<<"VP", "G", "paths", PathSeq>>)
+    /\ PrintT(<<"VP", "G", "methods", SeqOfSet(Methods)>>)
     /\ PrintT(<<"VP", "G", "tables", ValidIds>>)
 
 NoQuery == [host |-> "", path |-> <<>>, method |-> "", res |-> NotFound]
@@ -124,7 +125,7 @@ Freeze == ~frozen /\ table # <<>> /\ frozen' = TRUE /\ UNCHANGED <<table, q>>
 
 Query(h, p, m) ==
     /\ frozen /\ q = NoQuery
-    /\ q' = [host |-> h, path |-> p, method |-> m, res |-> ResolveOpt([Ideal(DomainFirst) EXCEPT !.mut = Mutant], table, h, p, m)]
+    /\ q' = [host |-> h, path |-> p, method |-> m, res |-> ResolveOpt([Ideal(DomainFirst) EXCEPT !.mut = Mutant], table, {h}, p, m)]
     /\ UNCHANGED <<table, frozen>>
 
 Next == /\ ~GrammarOnly
